@@ -139,6 +139,8 @@ fn words_to_args(words: &[Value], vrec: &Path) -> Vec<OsString> {
         a.push(OsString::from(w["prim"].as_str().unwrap_or("-true")));
         match w["okind"].as_str().unwrap_or("none") {
             "none" | "unknown" | "missing" => {}
+            // -fprintf FILE without its format: the first of two operands is there
+            "missing1" => a.push(OsString::from("O/out")),
             "exec" => {
                 for x in arr(&w["args"]) {
                     a.push(exec_word(x.as_str().unwrap_or(""), vrec));
@@ -279,8 +281,12 @@ fn pick_bytes(rng: &mut Rng, good: &[&[u8]], near: &[&[u8]]) -> Vec<u8> {
 fn gen_prim(rng: &mut Rng, action: bool, last: bool) -> Value {
     let b = |x: Vec<u8>| bytes_to_json(&x);
     if last && rng.chance(1, 8) {
-        let p = *rng.pick(&["-name", "-size", "-perm", "-type", "-printf", "-newer", "-user", "-regex", "-mtime", "-exec", "-fprint", "-links", "-maxdepth", "-regextype", "-samefile", "-newermt"]);
+        let p = *rng.pick(&["-name", "-size", "-perm", "-type", "-printf", "-newer", "-user", "-regex", "-mtime", "-exec", "-fprint", "-links", "-maxdepth", "-regextype", "-samefile", "-newermt",
+                            "-fprintf", "-fprint0", "-fls", "-iname", "-lname", "-path", "-iregex", "-group", "-uid", "-inum", "-newermm", "-anewer", "-execdir", "-xtype", "-mmin", "-mindepth", "-files0-from"]);
         return json!({"k": "prim", "prim": p, "kind": if action { "action" } else { "test" }, "okind": "missing"});
+    }
+    if last && action && rng.chance(1, 12) {
+        return json!({"k": "prim", "prim": "-fprintf", "kind": "action", "okind": "missing1"});
     }
     if rng.chance(1, 25) {
         let p = *rng.pick(&["-foo", "-newerxm", "-newerzz", "-nam", "--print", "-Print", "-exe", "-size1k", "-é"]);
@@ -293,7 +299,7 @@ fn gen_prim(rng: &mut Rng, action: bool, last: bool) -> Value {
             2 => json!({"k": "prim", "prim": "-ls", "kind": "action", "okind": "none"}),
             3 => json!({"k": "prim", "prim": "-delete", "kind": "action", "okind": "none"}),
             4 | 5 => json!({"k": "prim", "prim": "-printf", "kind": "action", "okind": "printf",
-                        "arg": b(pick_bytes(rng, &[b"%p\\n", b"%f %s %m %y\\0", b"%-10p|%5d\\n", b"%%x", b"%h/%f %l", b"%P %H %U %G %n %i %Y"],
+                        "arg": b(pick_bytes(rng, &[b"%p\\n", b"%f %s %m %y\\0", b"%-10p|%5d\\n", b"%%x", b"%h/%f %l", b"%P %H %U %G %n %i %Y", b"%70000p\\n", b"%-65536f|", b"%65535d"],
                                             &[b"%", b"%5", b"%-", b"x%", b"\\", b"%z", b"\\q", b"%A", b"%-5", b"a\\", b"%TQ", b"%AE", b"%CO", b"%Ti", b"%TN\\n", b"%Ak%TJ", b"%T@ %TL"]))}),
             6 => json!({"k": "prim", "prim": "-fprint", "kind": "action", "okind": "fprint"}),
             _ => {
